@@ -1,7 +1,7 @@
 (** Extraction of the C10 specification and implementation model (ExtrOcamlBasic only; Z/positive/nat stay inductive). *)
-Require Import H4.AttrSpec H4.AttrModel.
+Require Import H4.AttrSpec H4.AttrModel H4.AttrPersistModel.
 Require Extraction.
 Require ExtrOcamlBasic.
-Extraction "../extract/gen/attr_spec.ml" AttrSpec.step AttrSpec.init.
+Extraction "../extract/gen/attr_spec.ml" AttrSpec.step AttrSpec.init AttrPersistModel.mstep.
 Extraction "../extract/gen/attr_model.ml" AttrModel.sdi_putattr AttrModel.nc_findattr AttrModel.vs_setattr AttrModel.vg_setattr
   AttrModel.gr_setattr AttrModel.sd_setcal AttrModel.sd_getcal.
